@@ -77,6 +77,9 @@ func generate(r *simkit.Rand, prop, tier string) *simkit.Plan {
 	ops := []string{"block", "abort", "finalize", "rollback", "blockpr", "unblockpr", "restart", "snapshot", "checkpoint", "release", "tick"}
 	w := []int{r.Range(6, 12), r.Range(0, 2), r.Range(3, 9), r.Range(0, 3), r.Range(0, 2), r.Range(0, 2), r.Range(0, 1), 0, 0, 0, 0}
 	n := r.Range(8, 60)
+	if tier == "thorough" && r.Chance(0.3) {
+		n = r.Range(60, 160) // thorough tier: a third of the runs are long (up to ~100 blocks)
+	}
 	if prop == "C10" {
 		w[4], w[5], w[6] = 0, 0, 0
 		w[7], w[8], w[9], w[10] = r.Range(1, 3), r.Range(0, 2), r.Range(4, 14), r.Range(1, 3)
